@@ -10,7 +10,7 @@ from .common import analysis, names_in
 from .c02 import fixed_gate
 
 PROP = "C16"
-TECHNIQUE = "registry symmetry against the spec's base types; placement of prepare / logical read relative to table writer, validator and decoder (CFG order); sibling agreement UTC vs local epoch; data-dependence of the decimal rejection guards; emission-length provenance for fixed decimals; numeric-safety lints (context-dependent Decimal methods, float true division)"
+TECHNIQUE = "registry symmetry against the spec's base types; per-path summaries for the placement of prepare / logical read relative to table writer, validator and decoder and for the epoch used on aware / naive / local paths; data-dependence of the decimal rejection guards; emission-length provenance for fixed decimals; numeric-safety lints (context-dependent Decimal methods, float true division)"
 LEVEL_TEXT = (
     "Static analysis: LOGICAL_WRITERS and LOGICAL_READERS have the same keys and each key's base type is the specification's; the "
     "preparer runs before the table writer and before the validator, the logical reader after decoding and keyed by the writer schema; "
